@@ -260,6 +260,11 @@ def make_hr(rng, fam):
         case["output"] = rng.choice(["invalid", "all", "all_measures", None])
     if rng.random() < 0.25:      # consistent data: parents really are the sums, so that '=' rules hold
         _make_consistent(case, rng)
+    if fam == "check_hierarchy" and rng.random() < 0.3:
+        # condition component: Id_3 is a function of Id_1, some rules apply only 'when Id_3 = <val>'
+        case["cond"] = {"map": {"1": rng.choice(["x", "y"]), "2": rng.choice(["x", "y"]), "3": rng.choice(["x", "y", "z"])}}
+        for r in rules:
+            r["when"] = rng.choice([None, "x", "y"])
     return case
 
 
@@ -294,7 +299,8 @@ def hr_script(case):
     parts = []
     for r in case["rules"]:
         rhs = " ".join(f"{s} {it}".strip() if t else f"{s}{it}" for t, (s, it) in enumerate(r["right"]))
-        s = (f"{r['name']}: " if r["name"] else "") + f"{r['left']} {r['op']} {rhs}"
+        when = f"when Id_3 = \"{r['when']}\" then " if r.get("when") else ""
+        s = (f"{r['name']}: " if r["name"] else "") + when + f"{r['left']} {r['op']} {rhs}"
         if r["ec"] is not None:
             s += f" errorcode {lit_code(r['ec'])}"
         if r["el"] is not None:
@@ -302,8 +308,9 @@ def hr_script(case):
         parts.append(s)
     opts = " ".join(x for x in (case["mode"], case["input"], case["output"]) if x)
     op = "hierarchy" if case["fam"] == "hierarchy" else "check_hierarchy"
-    return (f"define hierarchical ruleset hr (variable rule Id_2) is {'; '.join(parts)} end hierarchical ruleset; "
-            f"DS_r <- {op}(DS_1, hr rule Id_2{' ' + opts if opts else ''});")
+    cond = "condition Id_3 " if case.get("cond") else ""
+    return (f"define hierarchical ruleset hr (variable {cond}rule Id_2) is {'; '.join(parts)} end hierarchical ruleset; "
+            f"DS_r <- {op}(DS_1, hr {cond}rule Id_2{' ' + opts if opts else ''});")
 
 
 MISSING = ("missing",)
@@ -353,6 +360,14 @@ def run_chk_hier(case, emit):
                 continue
             if not pr:
                 continue
+            if case.get("cond") and rule.get("when") and case["cond"]["map"][str(g)] != rule["when"]:
+                # the rule does not apply to this group: outcome TRUE (never invalid); the imbalance of a rule that was not evaluated is not compared
+                feats.add("when-false")
+                if output != "invalid":
+                    expected[key] = {"bool_var": True, "imbalance": ANY, "errorcode": None, "errorlevel": None, "Me_1": ANY}
+                continue
+            if case.get("cond") and rule.get("when"):
+                feats.add("when-true")
             bv = None if lv is None or rv is None else CMP[rule["op"]](round(lv, 9), round(rv, 9))
             if bv is None:
                 feats.add("null-outcome")
@@ -375,7 +390,11 @@ def run_chk_hier(case, emit):
         expected = {k[:2]: dict(v, ruleid=k[2]) for k, v in expected.items()}
         maybe = {k[:2] for k in maybe}
         key_cols, cols = ["Id_1", "Id_2"], cols + ["ruleid"]
-    _execute(case, hr_script(case), {"DS_1": (HR_COMPS, case["rows"])}, key_cols, expected, maybe, cols, bucket, emit,
+    comps, rows = HR_COMPS, case["rows"]
+    if case.get("cond"):
+        comps = [HR_COMPS[0], ("Id_3", "String", "Identifier", False)] + HR_COMPS[1:]
+        rows = [[r[0], case["cond"]["map"][str(r[0])], r[1], r[2]] for r in case["rows"]]
+    _execute(case, hr_script(case), {"DS_1": (comps, rows)}, key_cols, expected, maybe, cols, bucket, emit,
              forbid_cols=(["bool_var"] if output == "invalid" else []) + (["Me_1"] if output == "all" else []))
 
 
